@@ -15,6 +15,8 @@ pub struct Env<'a> {
     /// the development-time switch: true when the `Frame::current` hop finding is listed as known, so
     /// the interpreter prunes such a hop's body after recording the observation
     pub skip_broken_hops: bool,
+    /// first panic caught on a helper thread
+    pub fail: &'a std::sync::Mutex<Option<vcore::Fail>>,
 }
 
 impl<'a> Env<'a> {
@@ -148,6 +150,11 @@ fn span_async<'a>(env: &'a Env<'a>, node: &'a PNode) -> BoxFut<'a> {
     }
 }
 
+pub fn run_root(env: &Env, prog: &crate::tree::Prog) {
+    run_sync(env, &prog.items);
+    check(env, prog.final_check);
+}
+
 pub fn run_sync(env: &Env, items: &[PItem]) {
     for it in items {
         match it {
@@ -265,16 +272,19 @@ fn push_header(env: &Env, id: usize, header: &Header, via: PushVia) -> Frame<emi
     }
 }
 
-/// Panics on helper threads are carried back and re-raised on the case thread, where vcore catches them.
-fn rejoin(r: std::thread::Result<Result<(), vcore::Fail>>) {
-    match r {
-        Ok(Ok(())) => {}
-        Ok(Err(f)) => std::panic::panic_any(HopPanic(f)),
-        Err(_) => std::panic::panic_any(HopPanic(vcore::Fail::new("panic@hop-thread", "helper thread died outside the guarded body"))),
+/// Panics on helper threads are caught there (vcore keeps the panic site per thread) and parked in
+/// `env.fail`; the oracle reports the first one before judging anything else.
+fn rejoin(env: &Env, r: std::thread::Result<Result<(), vcore::Fail>>) {
+    let fail = match r {
+        Ok(Ok(())) => return,
+        Ok(Err(f)) => f,
+        Err(_) => vcore::Fail::new("panic@hop-thread", "helper thread died outside the guarded body"),
+    };
+    let mut slot = env.fail.lock().unwrap();
+    if slot.is_none() {
+        *slot = Some(fail);
     }
 }
-
-pub struct HopPanic(pub vcore::Fail);
 
 /// "Next service": what a client does with an outgoing request and a server with the incoming one.
 fn service(env: &Env, id: usize, items: &[PItem], pre: usize, end: usize) {
@@ -300,7 +310,7 @@ fn service(env: &Env, id: usize, items: &[PItem], pre: usize, end: usize) {
         })
         .join()
     });
-    rejoin(r);
+    rejoin(env, r);
 }
 
 /// Same service, fresh thread (joined before going on).
@@ -349,7 +359,7 @@ fn hop(env: &Env, id: usize, carry: Carry, fut: bool, items: &[PItem], pre: usiz
         })
         .join()
     });
-    rejoin(r);
+    rejoin(env, r);
 }
 
 fn hop_future<'a>(env: &'a Env<'a>, id: usize, before: Tp, items: &'a [PItem], pre: usize) -> BoxFut<'a> {
